@@ -24,7 +24,7 @@ class C09(Prop):
         "Mode 'exact': R rounds, round j+1 is emitted only after round j's list was returned, each round is exactly the expected "
         "multiset (no type ever in surplus): every clause incl. completeness (exactly R lists, every arrived event in exactly one). "
         "Mode 'stream': free-running arrivals (several multisets, optionally surplus members): well-formedness, membership and "
-        "at-most-one-list-per-event only. Non-trivial = the stale-snapshot re-run path ran (an event entered the collecting step twice "
+        "at-most-one-list-per-event, and -- with one worker, where the documented buffering can be replayed exactly in delivery order -- at least as many lists as that replay completes (a surplus event must not keep a complete set from being returned). Non-trivial = the stale-snapshot re-run path ran (an event entered the collecting step twice "
         "within one attempt) or two collecting invocations overlapped in virtual time."
     )
     assumptions = [
@@ -264,6 +264,31 @@ class C09(Prop):
                     overlapping = b["s_in"] < a["s_out"] or b["t_in"] <= a["t_out"]
                     r.v("event_in_two_lists", mode=case["mode"], overlapping_completions=overlapping, workers_gt1=case["workers"] > 1)
                 seen[u] = key
+        if case["mode"] == "stream" and case["workers"] == 1 and rec.outcome["kind"] == "result":
+            # one worker = collector invocations strictly one after another, in delivery order: the documented buffering can be
+            # replayed exactly (an event of a type whose quota in the current set is already filled is not kept).  Whatever is done
+            # with such surplus events, at least the sets this replay completes must have been returned.
+            from collections import Counter
+
+            need = Counter(expected)
+            buf: Counter = Counter()
+            model_lists = 0
+            seen_uids = set()
+            for inv in log["col"]:
+                if inv["uid"] in seen_uids:
+                    continue
+                seen_uids.add(inv["uid"])
+                t = inv["type"]
+                if buf[t] < need[t]:
+                    buf[t] += 1
+                    if buf == need:
+                        model_lists += 1
+                        buf = Counter()
+            if len(completions) < model_lists:
+                r.v("complete_set_never_returned", lists=len(completions), reference=model_lists, mode="stream", workers=1,
+                    surplus_arrived=len(seen_uids) > model_lists * len(expected))
+            if model_lists >= 1 and len(seen_uids) > model_lists * len(expected):
+                r.classes.append("surplus_event_while_set_incomplete")
         if case["mode"] == "exact":
             R = len(case["rounds"])
             if len(completions) != R:
